@@ -99,6 +99,43 @@ def validateOrReject (r : Row) : Res :=
   | some .good | some .badUnexpectedError | some .badSecurityChecksFailed => v
   | some _ => { v with storedRejected := true }
 
+/-! ### the flag setters and a long-lived store
+
+`CertificateStore::new` starts with `check_time = true`, `skip_verify_certs = false`,
+`trust_unknown_certs = false` (certificate_store.rs:57-66); `set_skip_verify_certs`,
+`set_trust_unknown_certs`, `set_check_time` (l. 113-123) each assign exactly one field. -/
+
+structure Flags where
+  trustUnknown : Bool
+  skipVerify : Bool
+  checkTime : Bool
+deriving Repr, DecidableEq
+
+/-- `CertificateStore::new` -/
+def Flags.new : Flags := ⟨false, false, true⟩
+
+def Flags.setSkip (f : Flags) (b : Bool) : Flags := { f with skipVerify := b }
+def Flags.setTrust (f : Flags) (b : Bool) : Flags := { f with trustUnknown := b }
+def Flags.setTime (f : Flags) (b : Bool) : Flags := { f with checkTime := b }
+
+/-- what a store keeps between calls, as far as one certificate is concerned -/
+structure Live where
+  flags : Flags
+  rejDir : Bool
+  inRej : Bool
+  trDir : Bool
+  trusted : TrustedFile
+deriving Repr, DecidableEq
+
+/-- one `validate_or_reject_application_instance_cert` on a live store: the verdict and the store
+afterwards (files written stay) -/
+def Live.check (l : Live) (key : KeyCheck) (time : TimeV) (host : HostV) (uri : UriV) : Res × Live :=
+  let row : Row := ⟨l.flags.trustUnknown, l.flags.skipVerify, l.flags.checkTime, l.rejDir, l.inRej, l.trDir,
+                    l.trusted, key, time, host, uri⟩
+  let r := validateOrReject row
+  (r, { l with inRej := l.inRej || r.storedRejected,
+               trusted := if r.storedTrusted then .same else l.trusted })
+
 /-! ### the concrete key-length check -/
 
 inductive Policy where
